@@ -395,7 +395,8 @@ func (ro *RedisOutput) rdbReplay(ctx context.Context, pipe <-chan *rdb.BinEntry)
 				return nil
 			}
 		case <-ctx.Done():
-			return nil
+			// entries may still be queued: the replay is incomplete, not done
+			return ctx.Err()
 		}
 
 		filterOut := false
